@@ -822,6 +822,11 @@ func (c07) Exec(seed int64, i int, tier string) Record {
 		}
 		return rec
 	}
+	if i%20 == 3 {
+		// classes overlap-probe / kth-fault-probe (b15_overlap.go): one parsed function evaluated on two documents at
+		// overlapping times (same sequence as alone); a user function that fails on its k-th call only, then follow-ups
+		return b15Case("C07", CaseRng(seed, "C07", i))
+	}
 	r := CaseRng(seed, "C07", i)
 	g := &c07Gen{r: r, o: GenOpts{MaxDepth: 3, Filters: true, MaxSteps: 3, ErrBias: 8}}
 	nkeys := r.Range(2, 12)
